@@ -13,3 +13,6 @@ ob("NC_varoffset", "C03", entry="h_NC_varoffset", enforce="NC_varoffset", mode="
    defines=["MAXR=3"], **PG)
 ob("NCvcmaxcontig", "C03", entry="h_NCvcmaxcontig", enforce="NCvcmaxcontig", mode="proved-finite", unwind=34,
    cex_unwind=34, **PG)
+ob("NC_var_shape", "C03", unit="var_u.c", file="mfhdf/src/var.c", entry="h_NC_var_shape", enforce="H4_NC_var_shape",
+   mode="bounded", bound="rank<=3, <=4 dimensions, dimension sizes<=8, element size in {1,2,4,8}", unwind=6,
+   cex_unwind=6)
